@@ -850,6 +850,10 @@ func runC06(c *Ctx) {
 	checkMarshalledUnderTheGivenID(c, "R19")
 	checkExtendedFlagIffPairs(c, "R20")
 	checkStringsEncodedVerbatim(c, "R21")
+	// R22 (= C04.R10): a failed write inside a frame is latched — the next packet would be read as that frame's payload;
+	// R23 (= C03.R2): a frame is written as one piece under the connection's write mutex
+	checkWriteFailureLatched(c, "R22")
+	c.withOnly("R2", "R23", func() { runC03(c) })
 
 	// ---------- R8 count guards refuse only what cannot fit ----------
 	checkCountGuards(c, "R8")
